@@ -1,6 +1,7 @@
 package main
 
 import (
+	"os"
 	"sort"
 	"strings"
 )
@@ -35,6 +36,13 @@ func (p *propSpec) scenNames() string {
 }
 
 func (p *propSpec) owns(clause string) bool {
+	if x := os.Getenv("VERIF_EXTRA_CLAUSES"); x != "" { // exploration aid, never set by registered commands
+		for _, c := range strings.Split(x, ",") {
+			if strings.HasPrefix(clause, c) {
+				return true
+			}
+		}
+	}
 	for _, c := range p.Clauses {
 		if strings.HasPrefix(clause, c) {
 			return true
@@ -64,6 +72,10 @@ var props = []*propSpec{
 }
 
 func init() {
+	props = append(props, &propSpec{ID: "C08", Level: "fault_enumeration", Clauses: []string{"C08.", "C07.deadlock", "C14.panic"},
+		Scens:  []scenSpec{{Name: "crash", Opt: map[string]string{"enum": "1"}, Weight: 3, Batch: 2}, {Name: "crash", Weight: 1, Batch: 30}},
+		QuickS: 50, ThorS: 900,
+		Rule: "plans (pre-population + 1-2 victim tasks of 1-2 uploads/overwrites) are generated from VERIF_SEED; for each enumerated plan the victim phase is first run without a kill to count its N scheduling steps and then once per step i in 1..N with the process killed before step i (evaluations counts runs; coverage.crash_points the sub-runs); a run is non-trivial if a kill landed while an upload was in flight or a preemption happened; distinct = distinct schedule/outcome hash"})
 	props = append(props, &propSpec{ID: "C18", Level: "exploration", Clauses: []string{"C18."},
 		Scens:  []scenSpec{{Name: "upload", Opt: map[string]string{"limits": "1"}, Weight: 1}},
 		QuickS: 40, ThorS: 600, Rule: ruleCommon})
